@@ -26,8 +26,12 @@ EXPLANATION = (
     "then (y,x,rop) - the list its dispatch loop walks is evaluated path by "
     "path (built in place with append/insert(0)/reverse under ifs, or returned "
     "by a module-local helper with early returns) and must be [(x,y,op)] "
-    "without a reflected name, [(y,x,rop),(x,y,op)] exactly when "
-    "_overrides(y.cls, x.cls, rop) holds and [(x,y,op),(y,x,rop)] otherwise; a "
+    "without a reflected name or when x.data.cls and y.data.cls are the same "
+    "class (==, !=, is, is not in either order, also through a flag bound "
+    "once to the comparison; CPython never tries the reflected method for "
+    "operands of one type - D66), [(y,x,rop),(x,y,op)] exactly when the "
+    "classes differ and _overrides(y.cls, x.cls, rop) holds and "
+    "[(x,y,op),(y,x,rop)] otherwise; a "
     "construction outside that fragment is an analysis error - and the "
     "in-place fallback strips the leading i; R14.4 "
     "for 16 builtin types the presence of +,-,*,/,neg,[] (and len/iter/"
@@ -178,10 +182,12 @@ def _binop_order(ctx, vu, fn):
   reverse under `if`s, or returned by a module-local helper with early
   returns.  With x, y, name the operand/operator parameters and r the local
   bound to slots.REVERSE_NAME_MAPPING.get(name), every path must yield
-    r falsy                        -> [(x, y, name)]
-    r truthy, _overrides(..) true  -> [(y, x, r), (x, y, name)]
-    r truthy, _overrides(..) false -> [(x, y, name), (y, x, r)]
-  where _overrides(..) is `_overrides(y.data.cls, x.data.cls, r)`."""
+    r falsy, or x.data.cls == y.data.cls       -> [(x, y, name)]
+    r truthy, classes differ, _overrides(..)     -> [(y, x, r), (x, y, name)]
+    r truthy, classes differ, not _overrides(..) -> [(x, y, name), (y, x, r)]
+  where _overrides(..) is `_overrides(y.data.cls, x.data.cls, r)`: CPython never
+  tries the reflected method for operands of the same type (SLOT1BINFULL's
+  do_other), so the reflected option must be absent exactly then."""
   params = [a.arg for a in fn.args.args]
   if len(params) < 4:
     raise AnalysisError("_call_binop_on_bindings: signature changed")
@@ -216,6 +222,34 @@ def _binop_order(ctx, vu, fn):
     raise AnalysisError("_call_binop_on_bindings: no path reaches the dispatch loop")
   fwd, refl = (x_p, y_p, name_p), (y_p, x_p, r_v)
   ov = f"_overrides({y_p}.data.cls, {x_p}.data.cls, {r_v})"
+  xc, yc = f"{x_p}.data.cls", f"{y_p}.data.cls"
+
+  def same_class(conds):
+    """True/False/None: what the path knows about x.data.cls == y.data.cls."""
+    known = None
+    for text, pol in conds.items():
+      try:
+        t = ast.parse(text, mode="eval").body
+      except SyntaxError:
+        continue
+      if isinstance(t, ast.Name) and stores.get(t.id) == 1:
+        # a flag bound once to the comparison (`same = x.data.cls == y.data.cls`)
+        flag = t.id
+        for n in fn.body:
+          if isinstance(n, ast.Assign) and len(n.targets) == 1 and \
+              isinstance(n.targets[0], ast.Name) and n.targets[0].id == flag:
+            t = n.value
+            break
+      if isinstance(t, ast.Compare) and len(t.ops) == 1 and \
+          {src(t.left), src(t.comparators[0])} == {xc, yc} and \
+          isinstance(t.ops[0], (ast.Eq, ast.NotEq, ast.Is, ast.IsNot)):
+        v = pol if isinstance(t.ops[0], (ast.Eq, ast.Is)) else not pol
+        if known is not None and known != v:
+          raise AnalysisError("_call_binop_on_bindings: contradictory class comparisons "
+                              f"on the path {list(conds.items())}")
+        known = v
+    return known
+
   problems, shown = [], []
   for path, val in results:
     conds = dict(path)
@@ -223,25 +257,27 @@ def _binop_order(ctx, vu, fn):
       raise AnalysisError("_call_binop_on_bindings: the dispatch loop does not walk a "
                           f"list of tuples on the path {list(path)}")
     got = [it[1] for it in val[1]]
-    r, o = conds.get(r_v), conds.get(ov)
-    case = f"{r_v}={r}, overrides={o}"
+    r, o, same = conds.get(r_v), conds.get(ov), same_class(conds)
+    case = f"{r_v}={r}, same class={same}, overrides={o}"
     shown.append({"when": case, "order": [list(t) for t in got]})
-    if r is False:
+    if r is False or same is True:
       want = [fwd]
-    elif r is True and o is True:
+    elif r is True and same is False and o is True:
       want = [refl, fwd]
-    elif r is True and o is False:
+    elif r is True and same is False and o is False:
       want = [fwd, refl]
     else:
       want = None
     if want is None:
-      problems.append(f"the order {got} is chosen without testing "
-                      f"{'`' + r_v + '`' if r is None else '`' + ov + '`'}")
+      missing = (f"`{r_v}`" if r is None else
+                 f"whether {xc} and {yc} are the same class" if same is None else f"`{ov}`")
+      problems.append(f"the order {got} is chosen without testing {missing}")
     elif got != want:
       problems.append(f"when {case} the order is {got}, expected {want}")
   ctx.check(not problems, "_call_binop_on_bindings:order", vu.rel, fn.lineno,
-            "operands must be tried as (x, y, op) then (y, x, rop), reversed "
-            "only when y's class overrides the reflected method: " + "; ".join(problems),
+            "operands must be tried as (x, y, op) then (y, x, rop) - the reflected "
+            "option only when the operands' classes differ - reversed only when y's "
+            "class overrides the reflected method: " + "; ".join(problems),
             {"paths": shown})
 
 
@@ -846,7 +882,9 @@ def _is_recursive(mod, fn, callee):
 
 
 _OPTIONS_OLD = ("  options = [(xval, yval, name)]\n"
-                "  if rname:\n"
+                "  if rname and xval.data.cls != yval.data.cls:\n"
+                "    # Python does not try the reflected method if the operands have the same\n"
+                "    # type.\n"
                 "    options.append((yval, xval, rname))\n"
                 "    if _overrides(yval.data.cls, xval.data.cls, rname):\n"
                 "      # If y is a subclass of x and defines its own reverse operator, then we\n"
@@ -856,7 +894,8 @@ _OPTIONS_OLD = ("  options = [(xval, yval, name)]\n"
 
 def _order_helper(ov_ret="[reflected, forward]", default="[forward, reflected]",
                   reflected="(yval, xval, rname)",
-                  call="_binop_dispatch_order(name, rname, xval, yval)"):
+                  call="_binop_dispatch_order(name, rname, xval, yval)",
+                  forward_only="not rname or xval.data.cls == yval.data.cls"):
   """the try-order of _call_binop_on_bindings computed by a helper (C14-r1)."""
   vu = "pytype/vm_utils.py"
   return [
@@ -866,7 +905,7 @@ def _order_helper(ov_ret="[reflected, forward]", default="[forward, reflected]",
       (vu, "def _call_binop_on_bindings(node, name, xval, yval, ctx):\n",
        "def _binop_dispatch_order(name, rname, xval, yval):\n"
        "  forward = (xval, yval, name)\n"
-       "  if not rname:\n"
+       f"  if {forward_only}:\n"
        "    return [forward]\n"
        f"  reflected = {reflected}\n"
        "  if _overrides(yval.data.cls, xval.data.cls, rname):\n"
@@ -909,10 +948,20 @@ VARIANTS = [
     {"name": "twin-options-built-by-insert", "rule": "R14.3", "file": "pytype/vm_utils.py",
      "expect": "silent", "old": _OPTIONS_OLD,
      "new": "  options = [(xval, yval, name)]\n"
-            "  if rname and _overrides(yval.data.cls, xval.data.cls, rname):\n"
+            "  if xval.data.cls is yval.data.cls:\n"
+            "    pass\n"
+            "  elif rname and _overrides(yval.data.cls, xval.data.cls, rname):\n"
             "    options.insert(0, (yval, xval, rname))\n"
             "  elif rname:\n"
             "    options.append((yval, xval, rname))\n"},
+    # D66, second half: the reflected option is appended for operands of one class too
+    {"name": "revert-D66-reflected-option-for-same-class", "rule": "R14.3",
+     "file": "pytype/vm_utils.py", "expect": "fire",
+     "old": "  if rname and xval.data.cls != yval.data.cls:\n", "new": "  if rname:\n"},
+    {"name": "same-class-test-inverted", "rule": "R14.3", "file": "pytype/vm_utils.py",
+     "expect": "fire",
+     "old": "  if rname and xval.data.cls != yval.data.cls:\n",
+     "new": "  if rname and xval.data.cls == yval.data.cls:\n"},
     {"name": "options-built-in-unknown-way", "rule": "R14.3", "file": "pytype/vm_utils.py",
      "expect": "error", "old": _OPTIONS_OLD,
      "new": "  options = [(xval, yval, name)] + ([(yval, xval, rname)] if rname else [])\n"},
@@ -933,6 +982,8 @@ VARIANTS = [
      "edits": _order_helper(call="_binop_dispatch_order(name, rname, yval, xval)")},
     {"name": "order-helper-drops-reflected", "rule": "R14.3", "expect": "fire",
      "edits": _order_helper(default="[forward]")},
+    {"name": "order-helper-reflects-for-same-class", "rule": "R14.3", "expect": "fire",
+     "edits": _order_helper(forward_only="not rname")},
     {"name": "str-loses-getitem", "rule": "R14.4", "file": B, "expect": "fire",
      "old": "class list(List[_T]):", "new": "class list(object):"},
     {"name": "revert-D8-set-sub", "rule": "R14.5", "file": B, "expect": "fire",
@@ -1007,27 +1058,39 @@ EXPLANATION += (
     "`_overrides(y.cls, x.cls, rop)` - found by role: the module function "
     "_call_binop_on_bindings (or a helper it calls) hands (<right>.data.cls, "
     "<left>.data.cls, <reflected name>) - is *evaluated* from its AST "
-    "(rules/_minieval.py; module-local helpers such as _base are interpreted "
-    "too) over a class model (.mro, .members[name].bindings, eagerly filled "
+    "together with the other path conditions of the option list of "
+    "_call_binop_on_bindings (the list is enumerated path by path as in "
+    "R14.3; `rname`, the comparison of the operands' classes, once-bound "
+    "flags and the predicate call are interpreted by rules/_minieval.py; "
+    "module-local helpers such as _base and _provider are interpreted too) "
+    "over a class model (.mro, .members[name].bindings, eagerly filled "
     "like InterpreterClass or lazily through load_lazy_attribute like "
     "PyTDClass) for every ordered pair of classes of a small scope of "
     "hierarchies: the chain A<-B<-C with a sibling S(A) under all 64 "
     "placements of __sub__/__rsub__, and D(M, B) with a mixin in front.  The "
-    "method pytype would try first given the predicate's answer must be the "
-    "method the host CPython calls first on real classes of the same shape "
-    "(built with type(); both methods log and return NotImplemented): the "
+    "sequence of methods pytype looks up along the option list must be the "
+    "sequence of methods the host CPython calls on real classes of the same "
+    "shape (built with type(); both methods log and return NotImplemented): "
+    "the reflected method is tried only for operands of different classes; the "
     "reflected method goes first only when the right operand's class is a "
     "proper subclass of the left's and provides another implementation than "
     "the left operand's class sees (binary_op1 / method_is_overloaded).  "
-    "Pairs in which only one of the two methods exists are not compared (the "
-    "answer is unobservable).  Blind spots of R14.22: ParameterizedClass "
-    "operands (the _base unwrapping is executed but never exercised with a "
-    "wrapper), metaclass-provided operators, and two layouts in which today's "
-    "pytype is wrong and which are therefore kept out of the scope and parked "
-    "in rules/pending_c14_overrides_lookup.py (R14.23): a class *behind* the "
-    "left operand's class in the right operand's MRO that is not its ancestor "
-    "provides the reflected method (D(B, M), diamond Y(X, Z)), and "
-    "same-class operands whose class has only the reflected method.  "
+    "R14.22 leaves out pairs in which only one of the two methods exists.  "
+    "R14.23 (rules/c14_overrides_lookup.py) is the complete form, active "
+    "since D66 was repaired: the same evaluation over the chain, "
+    "mixin-in-front, mixin-behind D(B, M) and diamond Y(X, Z) worlds - the "
+    "layouts in which a class *behind* the left operand's class in the right "
+    "operand's MRO that is not its ancestor provides the reflected method, "
+    "where the pre-D66 `_overrides` (MRO scan stopping at the left class) "
+    "disagreed with CPython's provider comparison (method_is_overloaded) - "
+    "and with the pairs that have only one of the two methods included, so "
+    "that `C() - C()` for a class with only __rsub__ (TypeError in CPython: "
+    "no reflected attempt for equal types) must come out as 'nothing "
+    "looked up after the forward method'.  Blind spots of R14.22/R14.23: "
+    "ParameterizedClass operands (the _base unwrapping is executed but never "
+    "exercised with a wrapper), metaclass-provided operators, operand classes "
+    "that compare equal without being identical, and hierarchies larger than "
+    "four classes.  "
     "R14.24 (rules/c14_visibility.py): the attribute handler's visibility "
     "filter (found by role: `attr = self.<m>(node, attr)` re-binding its own "
     "argument before `return node, attr`; today _filter_var, two sites) and "
